@@ -397,6 +397,10 @@ def call_module(it, fv, args, kwargs):
             raise Unsupported('np.%s on compaction' % name)
         return f(a, b, fp)
     if name == 'where':
+        if len(args) == 1 and isinstance(a0, SArr) and a0.ndim == 1 and a0.dtype == 'bool':
+            g = npm.fz(a0)
+            frozen = npm.new_arr(ctx, a0.shape, g, 'bool', 'where')
+            return (SWhere(frozen),)
         if len(args) != 3:
             raise Unsupported('np.where with one argument')
         c, a, b = args
